@@ -144,6 +144,7 @@ class Interp:
         self.max_steps = max_steps
         self.timeout_ms = timeout_ms
         self._solver = None
+        self._cur_st = None
         self.stats = {"solver_queries": 0, "solver_time": 0.0, "forks": 0, "steps": 0, "unknown": 0}
         self._static_cells = {}
         self._opty = {}
@@ -392,7 +393,7 @@ class Interp:
             v = self.project(st, v, step, Ptr(ptr.cell, path[:i]))
         if isinstance(v, Lazy) and expand_scalar:
             t = self.types[v.ty]
-            if t.kind in ("int", "bool", "char", "float", "ref", "rawptr") or self.lazy.is_eager(self, t):
+            if t.kind in ("int", "bool", "char", "float", "ref", "rawptr", "pat") or self.lazy.is_eager(self, t):
                 v = self.lazy.expand(self, st, v, ptr, want=None)
         return v
 
@@ -457,8 +458,15 @@ class Interp:
         for e in proj:
             if e == "Deref":
                 v = self.read(st, ptr)
-                if isinstance(v, Agg):  # Box<T>: dig out the raw pointer
-                    v = self.unwrap_ptr(v)
+                here = ptr
+                while isinstance(v, (Agg, Lazy)):  # Box<T> / NonNull<T>: dig out the raw pointer
+                    if isinstance(v, Lazy):
+                        v = self.lazy.expand(self, st, v, here, want=0)
+                        continue
+                    if not v.f:
+                        break
+                    here = Ptr(here.cell, here.path + (0,))
+                    v = v.f[0]
                 if not isinstance(v, Ptr):
                     raise Unsupported("deref of %r" % (v,))
                 ptr = v
@@ -501,8 +509,15 @@ class Interp:
             return z3.Int2BV(z3.Length(s), 64)
         raise Unsupported("str_len of %r" % (s,))
 
-    def unwrap_ptr(self, v):
-        while isinstance(v, Agg):
+    def unwrap_ptr(self, v, st=None):
+        while isinstance(v, (Agg, Lazy)):
+            if isinstance(v, Lazy):
+                if st is None:
+                    st = self._cur_st
+                if st is None:
+                    raise Unsupported("lazy pointer wrapper %r" % (v,))
+                v = self.lazy.expand(self, st, v, None, want=0)
+                continue
             if not v.f:
                 raise Unsupported("no pointer in aggregate")
             v = v.f[0]
@@ -1097,7 +1112,7 @@ class Interp:
                 fd = self.prog.fndefs.get(sty_id)
                 if fd is None:
                     raise Unsupported("closure fn pointer")
-                return FnPtr(fd["fnptr_inst"])
+                return FnPtr(fd["fnptr_inst"], closure=True)
             if pc in ("MutToConstPointer", "UnsafeFnPointer", "ArrayToPointer"):
                 return v
             if pc == "Unsize":
@@ -1281,7 +1296,7 @@ class Interp:
             for i in range(fixed):
                 st.heap[base + 1 + i] = args[i]
             rest = args[fixed:]
-            if len(rest) == 1 and len(args) == n:
+            if call_abi == "RustCall" and len(rest) == 1 and len(args) == n:
                 st.heap[base + sa] = rest[0]
             else:
                 st.heap[base + sa] = Agg(None, rest)
@@ -1311,6 +1326,11 @@ class Interp:
         """perform a call from the current top frame.  Returns None or list of states."""
         if isinstance(inst.kind, dict) and "Virtual" in inst.kind:
             inst = self.resolve_virtual(st, inst, args)
+        if inst.is_clone and len(args) == 1 and isinstance(args[0], Ptr):
+            r = self.structural_clone(st, inst, args[0])
+            if r is not None:
+                self.finish_call(st, r[0], dest, target)
+                return None
         if inst.model is not None:
             self.models_used.add(inst.name)
             try:
@@ -1345,7 +1365,62 @@ class Interp:
         if fnshim is not None:
             callee, cargs = fnshim
             return self.invoke(st, callee, cargs, dest, target, unwind, None)
+        ctor = self.ctor_shim(inst, args)
+        if ctor is not None:
+            self.finish_call(st, ctor, dest, target)
+            return None
         raise Unsupported("no model or body for %s" % inst.name)
+
+    def structural_clone(self, st, inst, ptr):
+        """Clone of plain syntax / std data (derived, structural Clone impls outside the code under test):
+        a copy of the value as it is, without forcing unexpanded symbolic parts; boxes get fresh cells."""
+        if "<impl std::clone::Clone for " in inst.name:
+            self_ty = inst.name.split("<impl std::clone::Clone for ", 1)[1][:-len(">::clone")]
+        else:
+            self_ty = inst.name[1:-len(" as std::clone::Clone>::clone")]
+        if self_ty.startswith(("std::rc::Rc<", "std::sync::Arc<")):
+            return (self.read(st, ptr, expand_scalar=False),)
+        probe = self_ty.replace("darling::ast::NestedMeta", "")
+        if "darling" in probe or probe.startswith("h") or "::h" in probe or "RefCell" in probe or "Cell<" in probe:
+            cur = self.read(st, ptr, expand_scalar=False)
+            if isinstance(cur, Lazy) and not self.drop_is_significant(cur.ty):
+                return (cur,)
+            return None
+        cur = self.read(st, ptr, expand_scalar=False)
+        tid = inst.targ(0) if inst.name.startswith("<") else (cur.ty if isinstance(cur, Lazy) else None)
+        if tid is not None and self.drop_is_significant(tid):
+            return None
+        self.models_used.add("<T as Clone>::clone (structural copy of non-darling data)")
+        return (self.copy_value(st, cur, 0),)
+
+    def copy_value(self, st, v, depth):
+        if depth > 60:
+            raise Unsupported("copy_value depth")
+        if isinstance(v, Agg):
+            return Agg(v.v, [self.copy_value(st, x, depth + 1) for x in v.f])
+        if isinstance(v, VecVal):
+            return VecVal([self.copy_value(st, x, depth + 1) for x in v.elems])
+        if isinstance(v, Ptr) and not v.path and v.cell in st.heap and not (isinstance(v.cell, tuple) and v.cell[0] != "L"):
+            # owned allocation (Box contents / lazily created pointee): give the copy its own cell
+            inner = st.heap[v.cell]
+            if isinstance(v.cell, tuple):
+                return v  # lazily named input cell: immutable input, shared
+            return Ptr(st.alloc(self.copy_value(st, inner, depth + 1)), (), v.meta)
+        return v
+
+    def ctor_shim(self, inst, args):
+        """body-less tuple-struct / enum-variant constructor used as a function"""
+        if not inst.sig:
+            return None
+        rt = self.types.get(inst.sig[-1])
+        if rt is None or rt.kind != "adt":
+            return None
+        last = inst.name.split("::<")[0].rsplit("::", 1)[-1] if not inst.name.endswith(">") else inst.name.rsplit("::", 1)[-1]
+        last = inst.name.rsplit("::", 1)[-1]
+        for i, v in enumerate(rt.adt["variants"]):
+            if v["name"] == last and len(v["fields"]) == len(args):
+                return Agg(i if rt.is_enum else None, args)
+        return None
 
     def fn_trait_shim(self, st, inst, args):
         """body-less `<F as Fn*>::call*` where F is a fn item or fn pointer: call F with the spread tuple"""
@@ -1624,6 +1699,8 @@ class Interp:
             if fty.fnsig:
                 call_abi = fty.fnsig.get("abi")
         args = [self.eval_operand(st, fr, a) for a in val["args"]]
+        if "Constant" not in func and fv.closure:
+            args = [UNIT] + args
         dest = self.eval_place(st, fr, val["destination"])
         return self.invoke(st, callee, args, dest, val["target"], val["unwind"], call_abi)
 
@@ -1725,6 +1802,7 @@ class Interp:
 
     # ------------------------------------------------------------------ main loops
     def step(self, st):
+        self._cur_st = st
         fr = st.frames[-1]
         inst = fr.inst
         blk = inst.blocks[fr.bb]
@@ -1770,7 +1848,7 @@ class Interp:
                     break
                 try:
                     succ = self.step(s)
-                except (KeyError, IndexError, AttributeError, TypeError, ValueError, z3.Z3Exception) as ex:
+                except (KeyError, IndexError, AttributeError, TypeError, ValueError, RecursionError, z3.Z3Exception) as ex:
                     import traceback
                     tb = traceback.format_exc().strip().splitlines()
                     s.status = "unsupported"
